@@ -21,15 +21,15 @@ SourceKinds == {"src", "timer", "fb"}
 \* indexes (into ins) of the inputs whose tick activates the node
 ActiveIns(n) ==
     CASE n.kind \in SourceKinds -> {}
-      [] n.kind = "sample"      -> {1}
+      [] n.kind \in {"sample", "sample2", "sampleu"} -> {1}    \* sample2 / sampleu: sum2 / sumu with a passive second input
       [] n.kind \in {"sum2", "sumu", "keymix"} -> {1, 2}
       [] OTHER                  -> {1}
 
 \* indexes of the inputs that must hold a value for user code to run
 ValidIns(n) ==
     CASE n.kind \in SourceKinds -> {}
-      [] n.kind = "sumu"        -> {1}
-      [] n.kind \in {"sum2", "sample", "keymix"} -> {1, 2}
+      [] n.kind \in {"sumu", "sampleu"} -> {1}
+      [] n.kind \in {"sum2", "sample", "sample2", "keymix"} -> {1, 2}
       [] OTHER                  -> {1}
 
 \* does the kind produce an output at all
@@ -46,8 +46,8 @@ HasOutput(n) == n.kind \notin {"rec"}
 F(n, iv, iok, s) ==
     CASE n.kind = "pass"   -> [w |-> TRUE, v |-> iv[1], s |-> s]
       [] n.kind = "add"    -> [w |-> TRUE, v |-> iv[1] + n.k, s |-> s]
-      [] n.kind = "sum2"   -> [w |-> TRUE, v |-> iv[1] + iv[2], s |-> s]
-      [] n.kind = "sumu"   -> [w |-> TRUE, v |-> iv[1] + (IF iok[2] THEN iv[2] ELSE 0), s |-> s]
+      [] n.kind \in {"sum2", "sample2"} -> [w |-> TRUE, v |-> iv[1] + iv[2], s |-> s]
+      [] n.kind \in {"sumu", "sampleu"} -> [w |-> TRUE, v |-> iv[1] + (IF iok[2] THEN iv[2] ELSE 0), s |-> s]
       [] n.kind = "sample" -> [w |-> TRUE, v |-> iv[2], s |-> s]
       [] n.kind = "keymix" -> [w |-> TRUE, v |-> iv[1] * 100 + iv[2], s |-> s]   \* (key, x) inside a mapped child
       [] n.kind = "acc"    -> [w |-> TRUE, v |-> s + iv[1], s |-> s + iv[1]]
